@@ -43,6 +43,26 @@ fn report_redefined_types(
     }
 }
 
+/// A definition lists each of its members once: a repeated variant or field would be
+/// emitted twice, a repeated trait method silently replaced.
+fn report_repeated_members(
+    diagnostics: &mut Diagnostics,
+    member: &str,
+    owner: &str,
+    names: impl Iterator<Item = String>,
+) {
+    let mut seen: HashSet<String> = HashSet::new();
+    for name in names {
+        if !seen.insert(name.clone()) {
+            diagnostics.push(Diagnostic::new(
+                Stage::Typer,
+                Severity::Error,
+                format!("{} {} is defined more than once in {}", member, name, owner),
+            ));
+        }
+    }
+}
+
 fn predeclare_types(genv: &mut GlobalTypeEnv, hir: &hir::PackageHir, hir_table: &hir::HirTable) {
     for item in hir.toplevels.iter() {
         match hir_table.def(*item) {
@@ -77,6 +97,12 @@ fn define_enum(env: &mut PackageTypeEnv, diagnostics: &mut Diagnostics, enum_def
         .map(|i| tast::TastIdent(i.to_ident_name()))
         .collect();
     let tparam_names = type_param_name_set(&enum_def.generics);
+    report_repeated_members(
+        diagnostics,
+        "Variant",
+        &enum_def.name.to_ident_name(),
+        enum_def.variants.iter().map(|(v, _)| v.to_ident_name()),
+    );
 
     let variants = enum_def
         .variants
@@ -114,6 +140,12 @@ fn define_struct(
         .map(|i| tast::TastIdent(i.to_ident_name()))
         .collect();
     let tparam_names = type_param_name_set(&struct_def.generics);
+    report_repeated_members(
+        diagnostics,
+        "Field",
+        &struct_def.name.to_ident_name(),
+        struct_def.fields.iter().map(|(f, _)| f.to_ident_name()),
+    );
     let fields = struct_def
         .fields
         .iter()
@@ -142,6 +174,15 @@ fn define_trait(
 ) {
     let mut methods = IndexMap::new();
     let no_tparams = HashSet::new();
+    report_repeated_members(
+        diagnostics,
+        "Method",
+        &trait_def.name.to_ident_name(),
+        trait_def
+            .method_sigs
+            .iter()
+            .map(|sig| sig.name.to_ident_name()),
+    );
 
     for hir::TraitMethodSignature {
         name: method_name,
